@@ -11,6 +11,7 @@ import (
 	"log/slog"
 	"os"
 	"os/exec"
+	"runtime"
 	"sort"
 	"strings"
 	"sync"
@@ -62,14 +63,14 @@ func (SchedEngine) Gen(prop, tier string, seed uint64, yield func(c any) bool) {
 		n = 12000
 	}
 	rng := core.NewRng(core.SubSeed(seed, "sched", tier))
-	scen := []string{"A", "B", "C", "A", "B", "C", "D"}
+	scen := []string{"A", "B", "C", "E", "A", "B", "C", "E", "D"}
 	for i := 0; i < n; i++ {
-		c := SchedCase{Scenario: scen[i%len(scen)], Seed: rng.U64(), Workers: rng.Range(2, 3), OpsPer: rng.Range(1, 2), KeepBias: core.Pick(rng, []int{50, 80, 90, 97})}
+		c := SchedCase{Scenario: scen[i%len(scen)], Seed: rng.U64(), Workers: rng.Range(2, 3), OpsPer: rng.Range(1, 2), KeepBias: core.Pick(rng, []int{800, 950, 990, 997})}
 		if rng.Chance(1, 6) {
 			c.Workers = 4
 			c.OpsPer = 1
 		}
-		c.PoolKind = []string{"generic", "combined", "signeddata"}[(i/7)%3]
+		c.PoolKind = []string{"generic", "combined", "signeddata"}[(i/9)%3]
 		if !yield(c) {
 			return
 		}
@@ -88,8 +89,8 @@ func (SchedEngine) Shrink(ci any) []any {
 	}
 	add(func(y *SchedCase) { y.Workers = 2 })
 	add(func(y *SchedCase) { y.OpsPer = 1 })
-	add(func(y *SchedCase) { y.KeepBias = 97 })
-	add(func(y *SchedCase) { y.KeepBias = 50 })
+	add(func(y *SchedCase) { y.KeepBias = 997 })
+	add(func(y *SchedCase) { y.KeepBias = 800 })
 	return out
 }
 
@@ -367,6 +368,68 @@ func buildEnv(c SchedCase) *schedEnv {
 				}
 			}
 		}
+	case "E":
+		// independent verifications through the cms API on one cold shared pool of each concrete type
+		var sods []*document.SOD
+		gen := &cms.GenericCertPool{}
+		sdp := &cms.SignedDataCertPool{}
+		comb := &cms.CombinedCertPool{}
+		var skis [][]byte
+		var countries []string
+		for i := 0; i < 3; i++ {
+			spec := worldA(core.SubSeed(c.Seed, "doc", i))
+			spec.Country = i + 1
+			w := world.Build(spec)
+			sod, err := document.NewSOD(w.LDS[chip.FidSOD])
+			if err != nil {
+				continue
+			}
+			sods = append(sods, sod)
+			gen.Add(w.CSCACert.DER)
+			sdp.Add(w.CSCACert.DER)
+			p := &cms.GenericCertPool{}
+			p.Add(w.CSCACert.DER)
+			comb.AddCertPool(p)
+			skis = append(skis, w.CSCACert.Spec.SKI)
+			countries = append(countries, w.Alpha2)
+		}
+		var shared cms.CertPool = gen
+		switch c.PoolKind {
+		case "combined":
+			shared = comb
+		case "signeddata":
+			shared = sdp
+		}
+		if len(sods) == 0 {
+			return env
+		}
+		fpCerts := func(cs []cms.Certificate) string {
+			h := sha256.New()
+			for _, x := range cs {
+				h.Write(x.Raw)
+			}
+			return fmt.Sprintf("%d/%x", len(cs), h.Sum(nil)[:6])
+		}
+		for i := 0; i < nOps; i++ {
+			j := rng.Intn(len(sods))
+			switch rng.Intn(5) {
+			case 0, 1:
+				addOp("SignedData.Verify(shared pool)", nil, func() string {
+					chain, err := sods[j].SD.Verify(shared)
+					h := sha256.New()
+					for _, x := range chain {
+						h.Write(x)
+					}
+					return fmt.Sprintf("%v/%d/%x", err != nil, len(chain), h.Sum(nil)[:6])
+				})
+			case 2:
+				addOp("pool.BySKI", nil, func() string { return fpCerts(shared.BySKI(skis[j])) })
+			case 3:
+				addOp("pool.ByIssuerCountry", nil, func() string { return fpCerts(shared.ByIssuerCountry(countries[j])) })
+			case 4:
+				addOp("pool.All", nil, func() string { return fpCerts(shared.All()) })
+			}
+		}
 	case "D":
 		w := world.Build(worldA(c.Seed))
 		ch := w.NewChip()
@@ -490,18 +553,27 @@ func (SchedEngine) Run(prop string, ci any) *core.Outcome {
 	races0 := sched.RaceErrors()
 	activeSched = s
 	term.YieldHook = func(site string) { schedYield(site) }
+	vyHookInstall(true)
 	done := make(chan struct{})
 	go func() { s.Run(); close(done) }()
 	select {
 	case <-done:
-	case <-time.After(120 * time.Second):
-		out.Violate("C20", "scheduler-stuck", c.Scenario, "run did not finish within the wall-clock guard (harness or library hang)")
+	case <-time.After(time.Duration(guardSeconds()) * time.Second):
+		buf := make([]byte, 1<<20)
+		n := runtime.Stack(buf, true)
+		os.Stderr.Write(buf[:n])
+		out.Violate("C20", "scheduler-stuck", c.Scenario, "run did not finish within the wall-clock guard (harness or library hang): %s", s.Describe())
 		term.YieldHook = nil
+		vyHookInstall(false)
 		activeSched = nil
 		return out
 	}
 	term.YieldHook = nil
+	vyHookInstall(false)
 	activeSched = nil
+	if vyInstrumented {
+		out.Probe("library_code_yield_points")
+	}
 	// fingerprint: the decision sequence and the outputs
 	h := sha256.New()
 	for i, p := range s.Picks {
@@ -594,7 +666,7 @@ func (SchedEngine) Run(prop string, ci any) *core.Outcome {
 				out.Probe("once_initialised_in_this_run")
 			}
 		}
-	case "C":
+	case "C", "E":
 		// (3) independent instances: each call's result equals its lone execution
 		for _, cl := range s.Calls {
 			lone := execSeq(c, []int{cl.Op.ID})
@@ -656,3 +728,13 @@ func SchedChildMain(caseJSON string) int {
 }
 
 var _ = password.NewPasswordNil
+
+func guardSeconds() int {
+	if s := os.Getenv("VERIF_SCHED_GUARD_S"); s != "" {
+		var v int
+		if _, err := fmt.Sscan(s, &v); err == nil && v > 0 {
+			return v
+		}
+	}
+	return 900
+}
